@@ -3,6 +3,7 @@ package driver
 import (
 	"os"
 	"path/filepath"
+	"sort"
 	"time"
 )
 
@@ -27,7 +28,38 @@ func Specs() map[string]*Spec {
 		Components: map[string][]string{"real": realSoy, "stub": {}, "replaced": {"Go scheduler's choice between scanner and parser goroutine", "blocking on the token channel (modelled for enabledness; the real channel still carries the data)"}},
 	}
 	m["C18"] = &Spec{
-		ID: "C18", Level: "exploration", Main: "inst", Variants: []string{"inst"}, Block: 4,
+		ID: "C18", Level: "exploration", Main: "inst", Variants: []string{"inst", "plain"}, Block: 4,
+		Post: func(e *Env, s *Spec, agg *Agg, cov map[string]interface{}) error {
+			// cross-check with the real runtime: the un-instrumented build parses the same sequences and
+			// the goroutine dump is searched for scanner frames once it has settled
+			if agg.Counters["sequences_cut_by_c05_condition"] > 0 {
+				cov["native_cross_check"] = "skipped: some sequences met a C05 condition (a parse that hangs or crashes the scanner), which the real runtime cannot survive"
+				return nil
+			}
+			n := 80
+			if e.Tier == "thorough" {
+				n = 1500
+			}
+			var units []int
+			// the tail of the plan holds the seeded sequences, the head the exhaustive prefixes
+			for i := 0; i < n && i < agg.Units; i++ {
+				if i%2 == 0 {
+					units = append(units, agg.Units-1-i/2)
+				} else {
+					units = append(units, i/2)
+				}
+			}
+			sort.Ints(units)
+			a, err := e.Fan(FanOpts{Variant: "plain", Prop: s.ID, Units: units, Block: 1, BlockWall: s.BlockWall, Extra: append(s.extra(e), "-extra", "native")})
+			if err != nil {
+				return err
+			}
+			agg.Evals += a.Evals
+			agg.Fails = append(agg.Fails, a.Fails...)
+			agg.Counters["native_sequences"] += a.Counters["native_sequences"]
+			cov["native_cross_check"] = map[string]interface{}{"sequences": a.Counters["native_sequences"], "parse_calls": a.Evals, "leaks_seen_by_the_real_runtime": len(a.Fails)}
+			return nil
+		},
 		QuickWall: 4 * time.Minute, ThoroughWall: 20 * time.Minute, BlockWall: 15 * time.Minute,
 		Nontrivial: "history",
 		Rule: "sequences of up to 200 parse calls (parse.SoyFile, parse.Expr, soy.ParseGlobals, Bundle.Compile) run inside one simulated process; after every call returns the scheduler runs all remaining tasks to quiescence and any task " +
@@ -55,8 +87,8 @@ func init() {
 			QuickWall: 3 * time.Minute, ThoroughWall: 20 * time.Minute, BlockWall: 15 * time.Minute,
 			Nontrivial: "case",
 			Rule: "seeded generated bundles (1-4 files x 1-5 templates, all commands, directive chains, calls with data=all/data=$m/content params, msg with placeholders, html tags and plurals, globals, $ij, autoescape modes), " +
-				"each rendered per entry template and data set through a recording writer; then, exhaustively per case, one run for every write call index k of the fault-free run in three modes (sticky: calls >= k fail; transient: only call k fails; " +
-				"partial: call k accepts half its bytes and fails) and one run for every byte capacity b in 0..|output| (all b when |output| <= 1024, else all call boundaries +-1 and a seeded sample). " +
+				"each rendered per entry template and data set through a recording writer (without a message bundle, with a stub bundle, or with the repository's own PO-file bundle loaded from a generated catalogue); then, exhaustively per case, one run for every write call index k of the fault-free run in four modes (sticky: calls >= k fail; transient: only call k fails; " +
+				"partial: call k accepts half its bytes and fails; fullcount: call k accepts all its bytes and still returns an error) and one run for every byte capacity b in 0..|output| (all b when |output| <= 1024, else all call boundaries +-1 and a seeded sample). " +
 				"Oracle: a failed write implies a non-nil error; bytes accepted up to the first failure are a prefix of the fault-free output; nil implies the whole output was accepted. " +
 				"A case is distinct by (bundle skeleton, entry template, data set, catalogue) and non-trivial if its fault-free run makes at least two write calls.",
 			Assumptions: []string{
@@ -64,7 +96,7 @@ func init() {
 				"runs the plain, un-instrumented build: the writer seam is part of soy's API and needs no scheduler",
 			},
 			Components: map[string][]string{"real": {"all of robfig/soy, unmodified build of the current working tree"}, "stub": {"io.Writer (fault-injecting, recording)", "soymsg.Bundle (identity / reversed / partial catalogue built from the compiled messages)"}, "replaced": {}},
-			RequireProbes: []string{"fault_landed_on_entity", "fault_landed_on_escaper-chunk", "fault_landed_on_rawtext", "fault_landed_on_value", "fault_fired_sticky", "fault_fired_transient", "fault_fired_partial", "fault_fired_capacity",
+			RequireProbes: []string{"fault_landed_on_entity", "fault_landed_on_escaper-chunk", "fault_landed_on_rawtext", "fault_landed_on_value", "fault_fired_sticky", "fault_fired_transient", "fault_fired_partial", "fault_fired_fullcount", "fault_fired_capacity", "fault_fired_with_pomsg_bundle",
 				"fault_fired_with_catalogue", "bundle_has_css", "bundle_has_msg", "bundle_has_literal", "bundle_has_sp", "bundle_has_letc", "bundle_has_log", "bundle_has_param-content", "bundle_has_call"},
 		}
 	})
@@ -146,7 +178,7 @@ func init() {
 				return []string{"GORACE=halt_on_error=0 exitcode=0 log_path=" + filepath.Join(e.Scratch, "race", "r")}
 			},
 			ExtraFn:       func(e *Env) []string { return []string{"-racelog", filepath.Join(e.Scratch, "race", "r")} },
-			RequireProbes: []string{"op_render", "op_js", "op_compile", "op_parse", "op_with_catalogue", "runs_with_obligatory_directives", "runs_with_logger", "sched_random", "sched_pct", "sched_coarse", "sched_rr"},
+			RequireProbes: []string{"op_render", "op_render-shared", "op_js", "op_compile", "op_parse", "op_with_catalogue", "runs_with_pomsg_bundle", "runs_with_obligatory_directives", "runs_with_logger", "sched_random", "sched_pct", "sched_coarse", "sched_rr"},
 		}
 	})
 }
